@@ -8,7 +8,26 @@ use crate::tok::n;
 use crate::{util, Rng, Suite, Tier, Tok};
 use std::sync::atomic::Ordering;
 use vm_memory::guest_memory::Error as GmError;
-use vm_memory::{Bytes, GuestAddress, GuestMemory};
+use vm_memory::bitmap::BitmapSlice;
+use vm_memory::{Bytes, GuestAddress, GuestMemory, ReadVolatile, VolatileMemoryError, VolatileSlice};
+
+/// An in-memory byte source that hands out at most `chunk` bytes per read_volatile call (short
+/// reads, as files and sockets produce them).
+struct ChunkedSrc {
+    data: Vec<u8>,
+    pos: usize,
+    chunk: usize,
+}
+impl ReadVolatile for ChunkedSrc {
+    fn read_volatile<B: BitmapSlice>(&mut self, buf: &mut VolatileSlice<B>) -> Result<usize, VolatileMemoryError> {
+        let n = buf.len().min(self.chunk).min(self.data.len() - self.pos);
+        if n > 0 {
+            buf.write_slice(&self.data[self.pos..self.pos + n], 0)?;
+        }
+        self.pos += n;
+        Ok(n)
+    }
+}
 
 pub const SUITES: &[Suite] = &[Suite { name: "C03", gen, exec }];
 
@@ -162,6 +181,17 @@ fn step<M: GuestMemory>(m: &M, opc: u64, addr: u64, count: u64, d: &[u8], alt: b
             let r = m.write_all_volatile_to(a, &mut dst, count as usize);
             unit(r, dst)
         }
+        12 | 13 => {
+            // data = chunk :: source bytes
+            let mut src = ChunkedSrc { data: d[1..].to_vec(), pos: 0, chunk: d[0] as usize };
+            if opc == 12 {
+                let r = m.read_volatile_from(a, &mut src, count as usize);
+                cnt(r, src.data[src.pos..].to_vec())
+            } else {
+                let r = m.read_exact_volatile_from(a, &mut src, count as usize);
+                unit(r, src.data[src.pos..].to_vec())
+            }
+        }
         _ => panic!("bad op"),
     }
 }
@@ -244,7 +274,7 @@ fn gen(rng: &mut Rng, tier: Tier, emit: &mut dyn FnMut(Vec<Tok>)) {
                 _ => rng.below(13),
             }
             .min(48);
-            let opc: u64 = match rng.below(16) {
+            let opc: u64 = match rng.below(19) {
                 0..=3 => 0,
                 4..=5 => 1,
                 6 => 2,
@@ -256,7 +286,9 @@ fn gen(rng: &mut Rng, tier: Tier, emit: &mut dyn FnMut(Vec<Tok>)) {
                 12 => 8,
                 13 => 9,
                 14 => 10,
-                _ => 11,
+                15 => 11,
+                16 | 17 => 12,
+                _ => 13,
             };
             let osz = |rng: &mut Rng, len: u64| -> u64 {
                 if rng.bool() {
@@ -277,7 +309,7 @@ fn gen(rng: &mut Rng, tier: Tier, emit: &mut dyn FnMut(Vec<Tok>)) {
                     (0, rng.bytes(s as usize))
                 }
                 7 => (*rng.pick(&[1u64, 2, 4, 8]), vec![]),
-                8 | 9 => {
+                8 | 9 | 12 | 13 => {
                     // source shorter than, equal to, longer than count
                     let sl = match rng.below(4) {
                         0 => len,
@@ -285,7 +317,13 @@ fn gen(rng: &mut Rng, tier: Tier, emit: &mut dyn FnMut(Vec<Tok>)) {
                         2 => len.saturating_sub(rng.below(5)),
                         _ => rng.below(49),
                     };
-                    (len, rng.bytes(sl.min(48) as usize))
+                    let mut d = rng.bytes(sl.min(48) as usize);
+                    if opc >= 12 {
+                        // at most 1..5 bytes per call, sometimes a chunk larger than everything
+                        let ch = if rng.chance(1, 6) { 200 } else { 1 + rng.below(5) as u8 };
+                        d.insert(0, ch);
+                    }
+                    (len, d)
                 }
                 _ => {
                     let k = rng.below(4) as usize;
